@@ -416,6 +416,7 @@ func (s *Session) queryRaw(o *Obligation, specDefs string) string {
 	}
 	body.WriteString(o.Guard + " " + o.Goal + "\n")
 	sb.WriteString(prunedPrelude(body.String(), o.NoQuant))
+	sb.WriteString(litDefsFor(body.String()))
 	sb.WriteString(specDefs)
 	for _, d := range s.decls {
 		sb.WriteString(d + "\n")
@@ -444,6 +445,15 @@ func (s *Session) queryRaw(o *Obligation, specDefs string) string {
 		sb.WriteString("(get-value (" + strings.Join(ts, " ") + "))\n")
 	}
 	return sb.String()
+}
+
+func sortedModKeys(m map[string][]modLoc) []string {
+	var ks []string
+	for k := range m {
+		ks = append(ks, k)
+	}
+	sort.Strings(ks)
+	return ks
 }
 
 func sortedKeys(m map[string]string) []string {
